@@ -225,6 +225,21 @@ func c18Large() []byte {
 	return c18LargeCache
 }
 
+// c18RejectsModel: three trips, one rejected row of every kind.
+func c18RejectsModel() *feedModel {
+	n3 := baseCounts
+	n3.trips, n3.stopTimes = 3, 6
+	mr := genStaticFeedN(&Ctx{}, false, n3, nil, nil)
+	for i, rj := range rejections {
+		if rj.times <= 1 {
+			spliceRejected(mr, rj, i%2, fmt.Sprintf("r%d", i))
+		}
+	}
+	return mr
+}
+
+func c18RejectsArchive() []byte { return renderFeed(c18RejectsModel(), presentation{}) }
+
 // c18BrokenStopTimes: a well-formed archive except that stop_times.txt makes the CSV reader fail
 // in its third line (0: a bare quote inside an unquoted field, 1: a row with one field too many).
 func c18BrokenStopTimes(kind int) []byte {
@@ -288,15 +303,8 @@ func c18Init() {
 	c18Inputs.zipUnknown = renderFeed(mu, presentation{})
 	c18Inputs.zipBOM = renderFeed(m, presentation{BOM: true})
 	{
-		n3 := baseCounts
-		n3.trips, n3.stopTimes = 3, 6
-		mr := genStaticFeedN(&Ctx{}, false, n3, nil, nil)
+		mr := c18RejectsModel()
 		mr.t("calendar.txt").set(0, "start_date", date)
-		for i, rj := range rejections {
-			if rj.times <= 1 {
-				spliceRejected(mr, rj, i%2, fmt.Sprintf("r%d", i))
-			}
-		}
 		// one-sided times, a time with blanks and one with too many colons, a transfer from a stop to itself
 		st := mr.t("stop_times.txt")
 		st.set(len(st.Rows)-1, "arrival_time", "")
